@@ -4,7 +4,7 @@
 //   if a face comes back: full query sweep, label queries, a few shapings with invariant walks, fonts; then destroy.
 //   Oracles: sanitizer (MON-SAN), CPU budget, MON-TABLE conservation at the two quiescent points, no GET after make
 //   on a preloadAll face, MON-ALLOC live set empty at quiescence.  H4 records which load-failure codes were tripped.
-// Mutation kinds (--mut): fuzz (historical .fuzz records), sweep (boundary values at structure-derived offsets),
+// Mutation kinds (--mut): fuzz (historical .fuzz records), sweep (boundary values at structure-derived offsets), tail (all 256 values at the last bytes of each table),
 //   field (16/32-bit field edits at those offsets, singly and in adjacent pairs), random, trunc, dir, hostile (callback answers),
 //   none (well-formed histories)
 #include "common.hpp"
@@ -376,6 +376,23 @@ int main(int argc, char **argv) {
             if (A.width == 2) wr16(pi, nv); else wr32(pi, nv);
             desc = fmt("rel %s[%u] %u -> [%u]%+d = %u", A.what, i, cur, j, steps[dsel], nv);
             if (nv == cur) { st.add("skipped_identity"); continue; }
+        } else if (mut == "tail") {
+            // systematic: every value at the last byte(s) of every parsed table, Graphite tables first (a parser that reads a count /
+            // opcode argument before checking the bound over-reads only when the structure ends exactly at the end of the table)
+            static const char *order[] = {"Silf", "Glat", "Gloc", "Feat", "Sill", "name", "cmap", "hmtx", "loca", "glyf", "hhea", "head", "maxp"};
+            std::vector<SfntDirEnt> td;
+            for (const char *w : order) for (auto &e : gdir) { char t[5] = {char(e.tag >> 24), char(e.tag >> 16), char(e.tag >> 8), char(e.tag), 0}; if (!strcmp(w, t)) td.push_back(e); }
+            if (td.empty()) { st.add("skipped_no_tables"); continue; }
+            long per = 256 * long(td.size());
+            if (g >= per * 4) { st.add("skipped_beyond_enumeration"); continue; }
+            uint32_t back = uint32_t(g / per);
+            const SfntDirEnt &e = td[size_t((g % per) / 256)];
+            if (e.len <= back || size_t(e.off) + e.len > m.size()) { st.add("skipped_short_table"); continue; }
+            uint32_t off = e.off + e.len - 1 - back;
+            uint8_t v = m[off], nv = uint8_t(g % 256);
+            m[off] = nv;
+            desc = fmt("tail %c%c%c%c end-%u (file offset %u) = %u (was %u)", char(e.tag >> 24), char(e.tag >> 16), char(e.tag >> 8), char(e.tag), back, off, nv, v);
+            if (nv == v) { st.add("skipped_identity"); continue; }
         } else if (mut == "random") {
             int nm = r.range(1, 3);
             for (int i = 0; i < nm; ++i) {
